@@ -219,7 +219,18 @@ impl<KK: KeyKind> KeyKind for FaultK<KK> {
 }
 
 /// Deterministic valid secret for a scheme from a 64-bit label.
+/// a Toy secret whose public key starts with a byte >= 0xf0 (long signatures, see sig::toy_sig)
+pub const LONG_TOY_LABEL: u64 = 0x7070_0000;
+
 pub fn secret_from(scheme: Scheme, label: u64) -> [u8; 32] {
+    if scheme == Scheme::Toy && label & 0xffff_0000 == LONG_TOY_LABEL {
+        for i in 0..100_000u64 {
+            let s = secret_from(scheme, (label & 0xffff) * 100_003 + i + 0x9000_0000);
+            if sig::toy_pub(&s)[0] >= 0xf0 {
+                return s;
+            }
+        }
+    }
     // labels with the top bit set name the NEGATION (n - k) of the secp256k1 key of the label without it:
     // same x coordinate, other parity
     if label >> 63 == 1 && scheme == Scheme::Secp {
